@@ -307,7 +307,8 @@ CLAIMED["C03"] = dict(
     text="Proof: the system both engines are specified to solve -- junction balance with constant or pressure-dependent non-decreasing demand, one "
          "strictly increasing head-loss law per link -- has at most one solution (flows on every link, heads at every node tied to a source), by the "
          "discrete divergence identity over arbitrary link lists; the laws of the common feature set (H-W pipe + minor loss, signed quadratic, head pump "
-         "curve) are strictly increasing; the constant-power pump law is not (two branches, _refuted theorem -- the root of a defect found and fixed). "
+         "gain for every flow) are strictly increasing, so networks of pipes, throttle/open valves and head pumps have at most one solution with NO "
+         "abstract hypothesis left, demand-driven and pressure-driven (C03_unique_common_feature_set[_pdd], the latter through C07_pdd_monotone); the constant-power pump law is not (two branches, _refuted theorem -- the root of a defect found and fixed). "
          "BinFile.read's table of unit parameters and its status recoding are regenerated from the source on every run and proved equal to the "
          "quantities EPANET writes (with C17's conversion theorems). Ties decided inside coqc by interval arithmetic: on the results BOTH engines report "
          "for the same generated model every junction balances and the links obey the C02 rows of their reported status -- on the WNTR report every "
